@@ -95,7 +95,8 @@ def interleaved(ctx, n, lits, cj):
 
 def run(ctx, focus="C05"):
     import logging
-    logging.getLogger("deep").setLevel(logging.CRITICAL + 1)
+    from ..lib.quiet import quiet_logging
+    quiet_logging()
     ctx.rule = ("synthetic frame chains (1-3 frames) whose locals hold generated object graphs (scalars, long strings, "
                 "lists/tuples/sets/dicts/objects, sharing, cycles, hostile values) x limits max_variables in {0,1,2,3,5,10,30,1000}, "
                 "max_collection_size in {0,1,2,3,10}, max_var_depth in {0..5,8}, max_string_length in {0,1,5,10,64,1024} x "
